@@ -49,4 +49,19 @@ PROPS = {
         note="Clock injected through the plugins' TimeNow field; instants outside the 10-point grid and sequences longer than L are not covered.",
         parts=[part("enum", "internal/config", "TestVerifC16")],
     ),
+    "C02": dict(
+        level="exploration", engine="enum",
+        technique="bounded-exhaustive enumeration of TOML documents (<=2 deviations from a valid base + full products inside interaction groups; all short byte strings and all 1-byte edits of real documents) through the real config.Parse against a reference validator",
+        text="Every document within 2 deviations of a valid base document, over per-key boundary alphabets (limit-1, limit, limit+1, invalid) and structural choices, plus the full product inside each interaction group, is parsed by the real parser; the verdict and, on acceptance, the complete Config (every default) are compared with a reference model written from the statement. Totality: all byte strings up to length L over a TOML-structural alphabet and every 1-byte edit of reference.toml never panic.",
+        note="Don't-care zones (statement silent): type mismatches, monitor interfaces with invalid advertising keys, names=[\"\"], domain_names=[\"\"], two ::/0 routes, non-canonical pref64, lifetimes above 2^32-1 s (C03 decides), captive-portal URIs the option constructor refuses, debug host names other than localhost/IP literals. 3-deviation interactions outside the listed groups are not covered.",
+        parts=[part("docs", "internal/config", "TestVerifC02", shards={"quick": 4, "thorough": 8}),
+               part("total", "internal/config", "TestVerifC02Total", shards={"quick": 4, "thorough": 16})],
+    ),
+    "C03": dict(
+        level="exploration", engine="enum",
+        technique="bounded-exhaustive enumeration of accepted configurations over a duration/CIDR boundary alphabet, each built and passed through the real wire codec (encode, decode, field-by-field comparison up to truncation)",
+        text="Every duration-typed key is set to each of 21 boundary strings (one key at a time; all pairs of keys in the thorough tier) and the pref64 prefix to each of 19 CIDR strings, on static/wildcard and plain/deprecated base documents; whatever the real parser accepts is built, encoded and decoded, and every field must come back equal up to truncation to its unit, which also requires 0 <= d <= field maximum.",
+        note="The ndp package's MarshalMessage/ParseMessage are taken as the wire format. System state fixed to one where generation succeeds. Values outside the boundary alphabet are not covered.",
+        parts=[part("codec", "internal/config", "TestVerifC03", shards={"quick": 2, "thorough": 16})],
+    ),
 }
